@@ -2247,6 +2247,9 @@ class VM:
         def relative_index(value, length):  # noqa: F811
             return _relative_index(self._to_number(value), length)
 
+        # a host integer beyond the double range is formatted as the double it denotes
+        receiver, n = n, to_number(n)
+
         def toFixed(*args):
             digits = to_integer_or_infinity(args[0]) if args else 0
             if digits < 0 or digits > 100:
@@ -2312,7 +2315,7 @@ class VM:
             return sign + "0." + "0" * -(e + 1) + digits
 
         def valueOf(*args):
-            return n
+            return receiver
 
         methods = {
             "toFixed": toFixed,
